@@ -35,6 +35,7 @@ Sift Config:
 """
 
 import sys
+import copy
 import logging
 import inspect
 import functools
@@ -1686,7 +1687,7 @@ class SiftConfig(collections.abc.MutableMapping):
 
     def _get_yamlsafe_dict(self):
         """Return copy of internal store with values prepped for saving into yaml format."""
-        conf = self.store.copy()
+        conf = copy.deepcopy(self.store)  # nested options must not be converted in place
         conf = _array_or_tuple_to_list(conf)
         return [{'sift_type': self.sift_type}, conf]
 
